@@ -193,10 +193,32 @@ func fmtPubMasked(p map[string][]pubShard) string {
 	return strings.Join(parts, "|")
 }
 
+// safeMeta turns the memory provider's panic on a version conflict into the error every other provider returns
+// (a writer that lost the race retries or gives up; it must not take the harness down).
+type safeMeta struct{ metadata.Provider }
+
+func (m safeMeta) Store(cs *model.ClusterStatus, v metadata.Version) (nv metadata.Version, err error) {
+	defer func() {
+		if x := recover(); x != nil {
+			nv, err = v, metadata.ErrMetadataBadVersion
+		}
+	}()
+	return m.Provider.Store(cs, v)
+}
+
+// fixedStatus is a read-only status resource over one snapshot.
+type fixedStatus struct {
+	resources.StatusResource
+	st *model.ClusterStatus
+}
+
+func (f fixedStatus) Load() *model.ClusterStatus { return f.st }
+
 func newCoordRun(o *hx.Out, g0 int64, x0 uint32) *stRun {
-	meta := metadata.NewMetadataProviderMemory()
+	meta := safeMeta{metadata.NewMetadataProviderMemory()}
 	r := &stRun{o: o, meta: meta, sr: resources.NewStatusResource(meta), inDomain: true, masked: true,
-		seen: map[int64]seenShard{}, hist: map[string][][]sh{}, prevGen: g0}
+		seen: map[int64]seenShard{}, hist: map[string][][]sh{}, prevGen: g0,
+		gone: map[string]bool{}, everNs: map[string]bool{}, zombie: map[int64]bool{}}
 	r.sr.Update(&model.ClusterStatus{Namespaces: map[string]model.NamespaceStatus{}, ShardIdGenerator: g0, ServerIdx: x0})
 	return r
 }
